@@ -229,6 +229,10 @@ XER_BITS = [b"<", b">", b"&", b"&amp;", b"&#x41;", b"&#xFFFFFFFFFF;", b"&#999999
             b"\x00", b"\xff\xfe", b" " * 40, b"</", b"/>", b"<a>", b"</a>", b"-", b"99999999999999999999999999", b"<true/>", b"<false/>", b"\n"]
 
 
+CHARREFS = [b"&#0;", b"&#;", b"&#x;", b"&#x0;", b"&#0000000000000;", b"&#1;", b"&#x1;", b"&#127;", b"&#128;", b"&#xD800;", b"&#x10FFFF;", b"&#x110000;",
+            b"&#4294967295;", b"&#4294967296;", b"&#-1;", b"&#+1;", b"&#x", b"&#", b"&#0"]
+
+
 def mut_xer(b, rng, budget, others):
     out = []
     n = len(b)
@@ -243,6 +247,11 @@ def mut_xer(b, rng, budget, others):
     for _ in range(budget["lenform"]):
         i = rng.below(n + 1)
         out.append(("xins", b[:i] + rng.choice(XER_BITS) + b[i:]))
+    # character references at the boundaries of OS__strtoent (0, no digits, 1, surrogate, > 0x10FFFF, overflow,
+    # sign) put where element TEXT is: directly behind a tag
+    spots = [(e, f) for (s_, e) in tags for f in CHARREFS]
+    for (e, f) in cap(spots, budget["lenform"], rng):
+        out.append(("charref", b[:e] + f + b[e:]))
     out += mut_bytes_generic(b, rng, budget["generic"], budget["generic"], others)
     return out
 
@@ -276,12 +285,18 @@ def _run_raw(exe, lines, timeout):
     return rc, out, se.decode("latin-1", "replace")[-6000:]
 
 
-def _run_chunk(exe, lines, timeout):
+# a tree that is broken badly kills the driver on thousands of lines; each death costs a sanitizer report and a new
+# process.  After this many deaths in one chunk the rest of the chunk is not run (reported as such): the check
+# has long failed by then, and a seeded-change run ends in minutes instead of a quarter of an hour
+MAX_DEATHS_PER_CHUNK = 400      # default; the extensible-type and leaf layers (no known crash findings there) pass 40
+
+
+def _run_chunk(exe, lines, timeout, max_deaths=MAX_DEATHS_PER_CHUNK):
     outs = []
     errs = {}
     pos = 0
     guard = 0
-    while pos < len(lines) and guard < 400:
+    while pos < len(lines) and guard < max_deaths:
         guard += 1
         chunk = lines[pos:]
         rc, out, err = _run_raw(exe, chunk, timeout)
@@ -307,7 +322,7 @@ def _run_chunk(exe, lines, timeout):
     return outs, errs
 
 
-def run_many(jobs, nproc=None, timeout=150, per_chunk=80):
+def run_many(jobs, nproc=None, timeout=150, per_chunk=80, max_deaths=MAX_DEATHS_PER_CHUNK):
     """jobs = [(exe, lines)]; all chunks of all jobs share one pool of processes.
     Returns [(outputs, {index: (kind, rc, stderr tail)})] in the order of jobs"""
     nproc = nproc or NCPU
@@ -321,7 +336,7 @@ def run_many(jobs, nproc=None, timeout=150, per_chunk=80):
             tasks.append((j, i, exe, lines[i:i + size]))
     res = [([None] * len(lines), {}) for (exe, lines) in jobs]
     with ThreadPoolExecutor(max_workers=nproc) as ex:
-        futs = [(j, i, ex.submit(_run_chunk, exe, ch, timeout)) for (j, i, exe, ch) in tasks]
+        futs = [(j, i, ex.submit(_run_chunk, exe, ch, timeout, max_deaths)) for (j, i, exe, ch) in tasks]
         for j, i, f in futs:
             o, e = f.result()
             res[j][0][i:i + len(o)] = o
@@ -385,14 +400,15 @@ def model_guarded(model, lines, cpu=2, mem_mb=1500, nproc=None):
         return list(ex.map(one, lines))
 
 
-D4 = re.compile(r"^(OK|MORE|FAIL|RC\?) (\d+) (\S+) ck=(-?\d+) re=(\S+) live=(-?\d+)( ATEXIT)?$")
+D4 = re.compile(r"^(OK|MORE|FAIL|RC\?) (\d+) (\S+) ck=(-?\d+) re=(\S+) live=(-?\d+)(?: slack=(\S+))?( ATEXIT)?$")
 
 
 def parse_d4(o):
     m = D4.match(o)
     if not m:
         return None
-    return {"rc": m.group(1), "consumed": int(m.group(2)), "der": m.group(3), "ck": int(m.group(4)), "re": m.group(5), "live": int(m.group(6))}
+    return {"rc": m.group(1), "consumed": int(m.group(2)), "der": m.group(3), "ck": int(m.group(4)), "re": m.group(5), "live": int(m.group(6)),
+            "slack": m.group(7)}
 
 
 def stack_site(err):
@@ -409,7 +425,7 @@ def stack_site(err):
 # elements start a new one)
 
 class BNode:
-    __slots__ = ("tag", "cons", "form", "content", "kids", "tree", "end")
+    __slots__ = ("tag", "cons", "form", "content", "kids", "tree", "end", "hdr", "cons_raw")
 
 
 def parse_ber_any(b, pos, depth=0):
